@@ -3,7 +3,7 @@
    its preservation by every command the helper issues (simulation). *)
 From Coq Require Import String List NArith ZArith Ascii Bool Lia Arith.
 From SV Require Import Lib.Bytes Model.FwLife Model.FwLifeSpec Proofs.FwLife_lemmas
-  Proofs.FwLife_gen1_wip Proofs.FwLife_gen2_wip.
+  Proofs.FwLife_gen_run Proofs.FwLife_gen_tbl.
 Import ListNotations.
 
 Definition is_names (sp : ispec) : list tok :=
